@@ -48,3 +48,9 @@ func (g *Galaxy) VerifHandler() http.Handler {
 func (g *Galaxy) VerifCleanIPtables(containerID string) error {
 	return g.cleanIPtables(containerID)
 }
+
+// VerifSetupIPtables is the start-up pass of the real daemon: it re-opens the host ports of the pods running on the
+// node, synchronises all port mapping rules and starts the periodic EnsureBasicRule loop.
+func (g *Galaxy) VerifSetupIPtables() error {
+	return g.setupIPtables()
+}
